@@ -67,7 +67,9 @@ class Prop(PropBase):
         r = rng.random()
         if r < 0.55:
             st = rng.choice([None, None, 1, 1, 2, 3, 7, max(L, 1), L + 1] + ([0, -1] if rng.random() < 0.15 else []))
-            return ["sl", self._bound(rng, L), self._bound(rng, L), st]
+            # index spelling: plain slice, 1-tuple, or a tuple that also names the other axes (same time effect)
+            form = rng.choice(["plain", "plain", "tuple1", "tf_all", "tf_part", "ellipsis"])
+            return ["sl", self._bound(rng, L), self._bound(rng, L), st, form]
         if r < 0.65:
             return ["fl"]
         if r < 0.8 and allow_fft and L >= 1:
@@ -124,7 +126,17 @@ class Prop(PropBase):
     def _apply(self, z, op):
         pb, np = self.pb, self.np
         if op[0] == "sl":
-            return z[slice(op[1], op[2], op[3])]
+            sl = slice(op[1], op[2], op[3])
+            form = op[4] if len(op) > 4 else "plain"
+            if form == "tuple1":
+                return z[(sl,)]
+            if form == "ellipsis" and type(z) is pb.Signal:       # RadioSignal documents slices only on its first two axes
+                return z[sl, ...]
+            if form == "tf_all" and z.ndim >= 2:
+                return z[sl, :]
+            if form == "tf_part" and z.ndim >= 2 and z.shape[1] >= 2:
+                return z[sl, 1:]
+            return z[sl]
         if op[0] == "fl":
             return pb.fast_len(z)
         if op[0] == "sc":
